@@ -72,6 +72,9 @@ func role(a common.Address) string {
 	if r, ok := roleOf[a]; ok {
 		return r
 	}
+	if r, ok := tRoleOf[a]; ok { // accounts that only phase T (term.go) has
+		return r
+	}
 	return "addr:" + a.Hex()[2:10]
 }
 
@@ -166,10 +169,19 @@ var scenarios = map[string]bounds{
 }
 
 func tierScenarios() []string {
-	if core.Thorough() {
-		return []string{"deep", "wide"}
+	var l []string
+	only := os.Getenv("C11_ONLY") // development aid: "1" = the first phase, "R" = phase R, "T" = phase T
+	if only == "" || only == "1" {
+		if core.Thorough() {
+			l = append(l, "deep", "wide")
+		} else {
+			l = append(l, "quick")
+		}
 	}
-	return []string{"quick"}
+	if only == "" || only == "R" {
+		l = append(l, rScenarioNames()...) // phase R (rollback.go)
+	}
+	return l
 }
 
 var B bounds
@@ -497,6 +509,9 @@ func run(full []string) core.Outcome {
 	if len(full) == 0 {
 		return core.Outcome{Key: "root", Enabled: tierScenarios()}
 	}
+	if isRScenario(full[0]) {
+		return runR(full)
+	}
 	var ok bool
 	if B, ok = scenarios[full[0]]; !ok {
 		panic("harness: unknown scenario " + full[0])
@@ -815,7 +830,18 @@ func main() {
 	node.Quiet()
 	node.DropEngineGoroutines() // see mc/node/tasks.go
 	safe := core.SafeRun(prop, run)
+	if devProbe(safe) {
+		return
+	}
 	if core.Opt.Replay != "" {
+		var tc termCase
+		if err := core.LoadReplay(core.Opt.Replay, &tc); err == nil && len(tc.Hist) > 0 {
+			// a history of phase T (term boundaries)
+			if replayTerm(tc) > 0 {
+				os.Exit(1)
+			}
+			return
+		}
 		var rp struct {
 			History []string `json:"history"`
 		}
@@ -836,11 +862,24 @@ func main() {
 		return
 	}
 	core.ServeIfWorker(safe)
+	if i, n, ok := core.IsWorker(); ok {
+		// a shard of phase T (term.go): it changes process-global parameters (term length), so it never
+		// shares a process with the BFS workers of the other phases
+		wr := core.NewResult(prop, "model_checking")
+		runTermShard(i, n, wr)
+		core.WorkerDone(wr)
+	}
 	r := core.NewResult(prop, "model_checking")
 	maxBlocks := 0
 	bnd := map[string]interface{}{}
 	var desc []string
 	for _, name := range tierScenarios() {
+		if isRScenario(name) {
+			if rMaxBlocks() > maxBlocks {
+				maxBlocks = rMaxBlocks()
+			}
+			continue
+		}
 		B = scenarios[name]
 		if B.maxBlocks > maxBlocks {
 			maxBlocks = B.maxBlocks
@@ -856,13 +895,11 @@ func main() {
 	}
 	r.Extra["bounds"] = bnd
 	// stay inside the tier's wall-clock allowance on a shared machine; a cut run is reported as not exhaustive
+	bfsBudget, termBudget := 4*time.Minute, 3*time.Minute
 	if core.Thorough() {
-		if core.Opt.Budget > 17*time.Minute {
-			core.Opt.Budget = 17 * time.Minute
-		}
-	} else if core.Opt.Budget > 150*time.Second {
-		core.Opt.Budget = 150 * time.Second
+		bfsBudget, termBudget = 22*time.Minute, 12*time.Minute
 	}
+	core.Opt.Budget = bfsBudget
 	core.BFS(r, core.BFSConfig{Prop: prop, Run: safe, MaxDepth: maxBlocks + 1, Subprocess: true, RecycleEvery: 1500, PerRunLimit: 120e9,
 		DiedFingerprint: func(hist []string, tail string) *core.Violation {
 			names := strings.Split(hist[len(hist)-1], ",")
@@ -880,13 +917,44 @@ func main() {
 			shrunk = append(shrunk, v)
 			continue
 		}
-		s := shrinkViolation(safe, v)
+		var s core.Violation
+		if strings.HasPrefix(v.Fingerprint, prop+"/rollback/") {
+			s = rShrink(safe, v)
+		} else {
+			s = shrinkViolation(safe, v)
+		}
 		if !seen[s.Fingerprint] {
 			seen[s.Fingerprint] = true
 			shrunk = append(shrunk, s)
 		}
 	}
 	r.Violations = shrunk
+	rSelfCheck(r)
+	// phase T in shard workers of its own; its violations are shrunk here (this process runs nothing else in-process afterwards)
+	if only := os.Getenv("C11_ONLY"); only == "" || only == "T" {
+		core.Opt.Budget = termBudget
+		tr := core.NewResult(prop, "model_checking")
+		core.RunShards(tr, core.Opt.Workers, nil, termBudget+4*time.Minute, nil)
+		var tv []core.Violation
+		tseen := map[string]bool{}
+		for _, v := range tr.Violations {
+			s := v
+			if strings.Contains(v.Fingerprint, "/tally-mismatch/") {
+				s = tShrink(v)
+			}
+			if !tseen[s.Fingerprint] {
+				tseen[s.Fingerprint] = true
+				tv = append(tv, s)
+			}
+		}
+		tRemoveTemplates()
+		tr.Violations = tv
+		r.Merge(tr)
+		termSelfCheck(r)
+		r.Extra["term_histories_planned"] = len(enumerateTerm())
+	} else {
+		r.NotExhaustive("phase T skipped (C11_ONLY)")
+	}
 	// coverage marks
 	var hit []string
 	nOK, nMis, nDisc := 0, 0, 0
@@ -903,6 +971,21 @@ func main() {
 		}
 	}
 	sort.Strings(hit)
+	var rhit []string
+	for k := range r.Distinct {
+		if strings.HasPrefix(k, "R/hit/") {
+			rhit = append(rhit, k[6:])
+		}
+	}
+	sort.Strings(rhit)
+	r.Extra["phase_R_hit"] = rhit
+	thit := map[string]int64{}
+	for k, v := range r.Counters {
+		if strings.HasPrefix(k, "T/") {
+			thit[k] = v
+		}
+	}
+	r.Extra["phase_T_hit_counts"] = thit
 	r.Extra["mechanisms_hit_by_correct_blocks"] = hit
 	r.Extra["distinct_block_shapes"] = map[string]int{"ok": nOK, "mismatch": nMis, "tx_discarded_by_assembler": nDisc}
 	core.Finish(r)
